@@ -170,6 +170,9 @@ def run(ctx, n, prefix="nested"):
     while done < n and attempts < n * 6:
         attempts += 1
         sess = {nm: rng.randrange(0, 6) for nm in rng.sample(NAMES, rng.randrange(0, len(NAMES) + 1))}
+        # the session may have REASSIGNED a constant: inside a comprehension it reads as reassigned, too
+        for nm in rng.sample(["pi", "e", "true", "false"], rng.choice([0, 0, 1, 2])):
+            sess[nm] = rng.randrange(2, 9)
         budget = [rng.choice([1, 2, 2, 3])]
         prog = gen_compr(rng, 3, set(sess), budget)
         if budget[0] == rng.choice([1, 2, 3]) and rng.random() < 0.5:
@@ -203,7 +206,7 @@ def run(ctx, n, prefix="nested"):
                 ctx.violation("%s-escape:%s" % (prefix, shown), shown, "a diagnosed error", v, how)
         # the session afterwards
         after = {}
-        for nm in NAMES + ["k", "m"]:
+        for nm in NAMES + ["k", "m"] + [c for c in ("pi", "e", "true", "false") if c in sess]:
             k2, v2 = R.value(nm, env=env)
             after[nm] = v2 if k2 == "ok" else None
         wrong = [nm for nm in after if after[nm] != sess.get(nm)]
